@@ -312,11 +312,39 @@ func TestVerifC06(t *testing.T) {
 	if vh.MyShard(2) {
 		c06Append(r, 8, clients)
 	}
-	if vres.ReplayPath() == "" {
-		for i, st := range []string{"ip_hash", "ip_hash_consistent"} {
-			if vh.MyShard(3 + i) {
-				vh.RunS(r, "TestVerifC06", c06sScenario(c06sParams{st}, 1))
-			}
+}
+
+// TestVerifC06S: affinity under concurrent traffic, all interleavings up to the bound; run
+// once in a normal build and once in a -race build (a strategy that shares scratch state
+// between concurrent picks is a data race before it is a wrong pick).
+func TestVerifC06S(t *testing.T) {
+	part := "S"
+	if vrt.RaceBuild {
+		part = "Race"
+	}
+	r := vres.Open("C06", part)
+	defer func() {
+		if err := r.Close(); err != nil {
+			t.Fatal(err)
+		}
+	}()
+	if vres.ReplayPath() != "" {
+		var rp vh.SReplay
+		var p c06sParams
+		rp.Params = &p
+		if err := vres.LoadReplay(&rp); err != nil {
+			t.Fatal(err)
+		}
+		vh.ReplayS(c06sScenario(p, 0), rp.Choices)
+		return
+	}
+	bound := 1
+	if vres.Thorough() {
+		bound = 2
+	}
+	for i, st := range []string{"ip_hash", "ip_hash_consistent"} {
+		if vh.MyShard(i) {
+			vh.RunS(r, "TestVerifC06S", c06sScenario(c06sParams{st}, bound))
 		}
 	}
 }
